@@ -25,7 +25,7 @@ def run(tier, replay):
     work = V.scratch()
     bins = V.build(["dbt", "strtab"], work)
     nontrivial = set()
-    modes = [("kth", c.seed, []), ("uniq", c.seed, []), ("oplog", c.seed, []), ("index", c.seed, []), ("nested", c.seed, [])]
+    modes = [("kth", c.seed, []), ("uniq", c.seed, []), ("oplog", c.seed, []), ("index", c.seed, []), ("nested", c.seed, []), ("options", c.seed, [])]
     for i in range(1 if tier == "quick" else 8):
         modes.append(("hist", c.seed * 1000 + i, [120, 30] if tier == "quick" else [300, 40]))
     nc = 30 if tier == "quick" else 40
